@@ -328,6 +328,27 @@ Definition name_is (n : bytes) (o : option bytes) : bool :=
 Definition Visinternal (c : bytes) : bool := existsb (fun p => is_prefix p c) HDF_INTERNAL_VGS.
 Definition user_created (g : VGROUP) : bool :=
   match vgclass g with None => true | Some c => negb (Visinternal (cstr c)) end.
+(** VSisinternal / vscheckclass: strnlen(vsclass) != 0 ? (query NULL ? !VSisinternal
+    : strncmp(query, _HDF_CHK_TBL_CLASS, 13) ? !strcmp(query, vsclass) : !strncmp(query, vsclass, 13)) : query == NULL *)
+Definition VSisinternal (c : bytes) : bool := existsb (fun p => is_prefix p c) HDF_INTERNAL_VDS.
+Definition vscheckclass (t : list (Z * vs)) (r : Z) (q : option bytes) : bool :=
+  match tget r t with
+  | None => false
+  | Some v =>
+      match s_class v with
+      | [] => match q with None => true | Some _ => false end
+      | c => match q with
+             | None => negb (VSisinternal c)
+             | Some qc => if is_prefix _HDF_CHK_TBL_CLASS qc then is_prefix _HDF_CHK_TBL_CLASS c else bytes_eqb qc c
+             end
+      end
+  end.
+(** the common tail of Vgetvgroups / VSIgetvdatas: FAIL when fewer than [start] objects qualify; with a NULL array
+    (n = 0) the count from [start] on, else the refs stored *)
+Definition m_enum (users : list Z) (start n : Z) : option (list Z) :=
+  if zlen users <? start then None
+  else if n =? 0 then Some [zlen users - start]
+  else let l := firstn (Z.to_nat n) (skipn (Z.to_nat start) users) in Some (zlen l :: l).
 Definition getvgroups_result (users : list Z) (start n : Z) : option (list Z) :=
   if zlen users <? start then None else Some (firstn (Z.to_nat n) (skipn (Z.to_nat start) users)).
 
@@ -358,6 +379,20 @@ Definition m_insert (s : mstate) (h : Z) (t r : Z) : mstate * res :=
   m_edit s h (fun vr g =>
     match Vinsert g t r with None => (s, RFail) | Some (g', i) => (m_put s vr g', ROk [i] None) end).
 Definition set_string (s : bytes) : option bytes := Some (cstr s).     (* malloc(strlen + 1); HIstrncpy *)
+(** VHmakegroup's loop: Vaddtagref for every pair of the arrays *)
+Fixpoint addlist_loop (g : VGROUP) (l : list pair) : option VGROUP :=
+  match l with
+  | [] => Some g
+  | (t, r) :: l' => match Vaddtagref g t r with Some (g', _) => addlist_loop g' l' | None => None end
+  end.
+Definition vgroup_users (s : mstate) (g : VGROUP) : list Z :=
+  flat_map (fun i => if aget (tag g) i =? DFTAG_VG
+                     then match tget (aget (ref g) i) (m_vg s) with
+                          | Some g2 => if user_created g2 then [aget (ref g) i] else []
+                          | None => [] end
+                     else []) (idx g).
+Definition file_users (s : mstate) : list Z :=
+  filter (fun id => match tget id (m_vg s) with Some g => user_created g | None => false end) (all_ids (m_vg s)).
 Definition lone_side_effect (s : mstate) : mstate :=
   let '(f, t) := lone_visits (m_hg s) (m_file s) (m_vg s) in mkm f t (m_vs s) (m_hg s) (m_hs s).
 
@@ -426,11 +461,11 @@ Definition mstep (s : mstate) (o : op) : mstate * res :=
       else match tget r (m_vs s) with None => (s, RFail) | Some _ =>
         if m_vs_attached r s then (s, RUnspec)
         else (mkm (m_file s) (m_vg s) (tdel r (m_vs s)) (m_hg s) (m_hs s), ROk [] None) end
-  | OVsNew r n c =>
+  | OVsNew r n c fl =>
       if negb ((1 <=? r) && (r <=? 65535)) then (s, RFail)
       else match tget r (m_vs s) with Some _ => (s, RFail) | None =>
         if name_ok n && name_ok c
-        then (mkm (m_file s) (m_vg s) (tins r (mkvs n c) (m_vs s)) (m_hg s) (m_hs s), ROk [r] None)
+        then (mkm (m_file s) (m_vg s) (tins r (mkvs n c fl) (m_vs s)) (m_hg s) (m_hs s), ROk [r] None)
         else (s, RUnspec) end
   | OVsAttach h r =>
       match tget h (m_hs s) with Some _ => (s, RUnspec) | None =>
@@ -482,6 +517,51 @@ Definition mstep (s : mstate) (o : op) : mstate * res :=
                                                 | None => [] end
                                            else []) (idx g) in
            match getvgroups_result users start n with None => (s, RFail) | Some l => mok s (zlen l :: l) end)
+  | OGetVdatasF q start n =>
+      if (start <? 0) || (n <? 0) then (s, RUnspec)
+      else match m_enum (filter (fun id => vscheckclass (m_vs s) id q) (all_ids (m_vs s))) start n with
+           | Some l => mok s l | None => (s, RFail) end
+  | OGetVdatasG h q start n => m_with s h (fun _ g =>
+      if (start <? 0) || (n <? 0) then (s, RUnspec)
+      else match m_enum (flat_map (fun i => if aget (tag g) i =? DFTAG_VH
+                                            then (if vscheckclass (m_vs s) (aget (ref g) i) q then [aget (ref g) i] else [])
+                                            else []) (idx g)) start n with
+           | Some l => mok s l | None => (s, RFail) end)
+  | OVHMakeGroup r n c l =>
+      if negb ((1 <=? r) && (r <=? 65535)) then (s, RFail)
+      else match tget r (m_vg s) with Some _ => (s, RFail) | None =>
+        if opt_ok n && opt_ok c && forallb (fun p => u16 (fst p) && u16 (snd p)) l && (zlen l <=? 65535)
+        then let g0 := new_vgroup r in                                           (* Vattach(f, -1, "w") *)
+             let g1 := match n with Some b => set_name g0 (set_string b) | None => g0 end in
+             let g2 := match c with Some b => set_class g1 (set_string b) | None => g1 end in
+             match addlist_loop g2 l with
+             | None => (s, RUnspec)
+             | Some g3 => let '(f, g4) := write_back (m_file s) g3 in            (* Vdetach *)
+                          (mkm f (tins r g4 (m_vg s)) (m_vs s) (m_hg s) (m_hs s), ROk [r] None)
+             end
+        else (s, RUnspec) end
+  | OVentries r =>
+      if r <? 1 then (s, RFail)
+      else if negb (u16 r) then (s, RUnspec)
+      else match tget (w16 r) (m_vg s) with Some g => mok s [nvelt g] | None => (s, RFail) end
+  | OQueryTag h => m_with s h (fun _ g => mok s [DFTAG_VG])
+  | OGisInternal h => m_with s h (fun _ g =>
+      mok s [match vgclass g with
+             | Some c => if Visinternal (cstr c) then 1 else 0
+             | None => match vgname g with
+                       | Some nm => if is_prefix GR_NAME (cstr nm) then 1 else 0
+                       | None => 0 end
+             end])
+  | OFlocate h f => m_with s h (fun _ g =>
+      match f with [] => (s, RUnspec) | _ =>
+        match flocate f (m_vs s) (map (fun i => (aget (tag g) i, aget (ref g) i)) (idx g)) with
+        | Some r => mok s [r] | None => (s, RFail) end end)
+  | OCountVgroupsF start =>
+      if start <? 0 then (s, RUnspec)
+      else if zlen (file_users s) <? start then (s, RFail) else mok s [zlen (file_users s)]
+  | OCountVgroupsG h start => m_with s h (fun _ g =>
+      if start <? 0 then (s, RUnspec)
+      else if zlen (vgroup_users s g) <? start then (s, RFail) else mok s [zlen (vgroup_users s g) - start])
   | OGetNext h id => m_with s h (fun _ g => match Vgetnext g id with Some k => mok s [k] | None => (s, RFail) end)
   | OMsize h => m_with s h (fun _ g => mok s [nvelt g; msize g])
   | ORawVg r => match tget r (m_file s) with Some b => (s, ROk [] (Some b)) | None => (s, RFail) end
